@@ -27,6 +27,15 @@ CHECKS = {
              "the same Python expression on real operands and requires TLC's matrix/shape/dtype or, for ill-formed "
              "ones, an exception.",
         design="5/C03", technique="TLC state enumeration of MC_Ops + spec-to-code replay of every state"),
+    "C04": dict(
+        text="The live rule table (150 signatures, subtype and isinstance facts, condition truth values) is extracted "
+             "from the running process on every run and handed to TLC as constants; TLC evaluates the transcribed plum "
+             "resolver (spec/Dispatch.tla: match, candidate loop, precedence tie-break with the +0.5 bonus) on the "
+             "complete lattice of admissible calls (about 27k points: function x kind(s) x annotation x algorithm x "
+             "arity) and every point must resolve. Conformance both ways: the real resolver is run on real argument "
+             "objects for every lattice point and must agree with the model; public calls are executed end to end "
+             "and every nested resolution event is validated against the model by spec/Trace_Dispatch.tla.",
+        design="5/C04", technique="TLC over extracted rule table (exhaustive lattice) + resolver trace validation"),
     "C20": dict(
         text="TLC resolves every index form (ints, slices incl. negative/strided/empty, integer arrays, lists) with the "
              "transcribed Python slice.indices / negative-wrap semantics (PyIndex.tla) on every operator tree and "
